@@ -5,6 +5,7 @@
   receive loop under any server history.
 -/
 import Mtv.Lemmas.ClientInv2
+import Mtv.Lemmas.C10Nested
 import Mtv.Client.MsgId
 namespace Mtv.Client
 
@@ -103,6 +104,55 @@ theorem ack_enabled (s : St) (mid : Nat) (hm : mid ∈ s.owedAck) (id seq : Nat)
 each member with an odd seq_no -/
 example : (process 0 {} 100 2 (.cont [(92, 1, .quiet), (96, 3, .odd), (98, 4, .quiet)])).owedAck = [92, 96] := by
   decide +kernel
+
+/-! ## members of nested containers (session 9)
+
+`gotOdd` is a history variable; which ids enter it is decided by `process`. The next theorem says it in terms of the
+MESSAGE the server sent: `contentIds 0 mid seq m` (Lemmas/C10Nested.lean) lists the msg_id of the message itself and
+of the members of its containers at EVERY depth the client looks at (four levels), wherever they stand — before,
+inside or after an inner container — for those with an odd seq_no. -/
+
+/-- **every content-related message inside a server message — the message itself, a member of a container, a member
+of a container nested in a container, at any depth — is answered by a msgs_ack naming its msg_id**, whatever the
+client had received before (`s`: any reachable state, after any number of earlier containers) and whatever happens
+afterwards (`t`): at every later moment the id is acknowledged, still owed, or its write failed; once the client is
+quiescent it is acknowledged (or the write failed) -/
+theorem nested_members_acked (s : St) (h : Reachable s) (mid seq : Nat) (m : Msg) (t : List Ev) (s' : St)
+    (hrun : run s (.recv mid seq m :: t) = some s') :
+    (∀ x ∈ contentIds 0 mid seq m, x ∈ s'.owedAck ∨ x ∈ s'.acked ∨ x ∈ s'.lostAck) ∧
+    (quiescent s' = true → ∀ x ∈ contentIds 0 mid seq m, x ∈ s'.acked ∨ x ∈ s'.lostAck) := by
+  have hr' : Reachable s' := reachable_run _ s s' h hrun
+  have hgot : ∀ x ∈ contentIds 0 mid seq m, x ∈ s'.gotOdd := by
+    intro x hx
+    have h1 : run (process 0 s mid seq m) t = some s' := by simpa [run, step] using hrun
+    exact run_gotOdd_mono t _ s' h1 (contentIds_in_gotOdd x m 0 s mid seq hx)
+  exact ⟨fun x hx => (every_content_message_acked s' hr').1 x (hgot x hx),
+         fun hq x hx => (every_content_message_acked s' hr').2 hq x (hgot x hx)⟩
+
+/-- the ids the theorem speaks about, for container[A, container[B, C], D] with a msgs_ack between B and C and a
+container three levels further down: A, B, C, D and the member of the innermost container -/
+example : contentIds 0 100 2 (.cont [(92, 1, .odd), (97, 2, .cont [(93, 3, .odd), (94, 4, .quiet), (95, 5, .quiet),
+    (96, 6, .cont [(90, 6, .cont [(91, 7, .odd)])])]), (98, 9, .odd)]) = [92, 93, 95, 91, 98] := by decide +kernel
+
+/-- members below the fourth level are not listed: the client refuses such a container as a whole (one warning) and
+has received nothing inside it; a refused container with an odd seq_no of its own is still acknowledged -/
+example : contentIds 0 100 2 (.cont [(1, 2, .cont [(2, 2, .cont [(3, 2, .cont [(4, 5, .cont [(5, 7, .odd)])])])])]) = [4] := by
+  decide +kernel
+
+/-- non-vacuity, on the history that loses an acknowledgement when the ids are collected in a buffer shared by the
+levels: an earlier container with a content-related member, then container[A, container[B, C], D]. One msgs_ack per
+member, or one per container (inner first) — both are runs of the machine ending quiescent with A, B, C, D
+acknowledged -/
+example : (run {} [.recv 60 2 (.cont [(56, 1, .odd)]), .ack 1000 0 [56],
+    .recv 100 4 (.cont [(92, 3, .odd), (97, 4, .cont [(93, 5, .odd), (94, 7, .odd)]), (98, 9, .odd)]),
+    .ack 1004 0 [93, 94], .ack 1008 0 [92, 98]]).map (fun s => (quiescent s, s.acked)) =
+    some (true, [92, 98, 93, 94, 56]) := by decide +kernel
+
+/-- … and what such a client writes instead — msgs_ack[B, C], then msgs_ack[B, D], A never — is NOT a run of the
+machine (B is not owed a second time), so the trace validation of every check run rejects it, like the oracle does -/
+example : run {} [.recv 60 2 (.cont [(56, 1, .odd)]), .ack 1000 0 [56],
+    .recv 100 4 (.cont [(92, 3, .odd), (97, 4, .cont [(93, 5, .odd), (94, 7, .odd)]), (98, 9, .odd)]),
+    .ack 1004 0 [93, 94], .ack 1008 0 [93, 98]] = none := by decide +kernel
 
 /-! ## non-vacuity -/
 example : (run {} [.send 0 1000 1 5, .send 1 1004 3 5, .recv 77 1 (.res 1004 "r1"), .ack 1008 4 [77],
